@@ -205,7 +205,104 @@ def poolfidelity(args):
     return 2 if bad else 0
 
 
+def _scratch_copy(repo, dst, patch):
+    subprocess.run(["rsync", "-a", "--exclude", ".git", "--exclude", "__pycache__", repo + "/", dst + "/"], check=True)
+    r = subprocess.run(["patch", "-p1", "-s", "-i", patch], cwd=dst, capture_output=True, text=True)
+    return r.returncode == 0, (r.stdout + r.stderr)[-300:]
+
+
+def seeded(args):
+    """Every change kept under seeded/<id>/ (written by independent sub-agents) is applied to a
+    scratch copy of /repo and the checks named in its meta.json are run against it: the property
+    it breaks must be reported (exit 1), unless meta.json documents the change as not caught."""
+    repo = os.environ.get("VERIF_REPO", "/repo")
+    base = f"/dev/shm/verif-seeded-{os.getpid()}"
+    only = set(args.only.split(",")) if getattr(args, "only", None) else None
+    t0 = time.time()
+    results, bad = [], 0
+    try:
+        for sid in sorted(os.listdir(os.path.join(VERIF, "seeded"))):
+            d = os.path.join(VERIF, "seeded", sid)
+            if not os.path.exists(os.path.join(d, "meta.json")) or (only and sid not in only):
+                continue
+            meta = json.load(open(os.path.join(d, "meta.json")))
+            prop = meta.get("breaks")
+            expect_caught = "MISSED: no plan" not in meta.get("detection", "") and not meta.get("detection", "").startswith("MISSED")
+            extra = []
+            for k in meta.get("check_results", {}):
+                m = re.match(r"^(C\d+) --runs (\d+)$", k)
+                if m and m.group(1) == prop:
+                    extra = ["--runs", m.group(2)]
+            copy = os.path.join(base, sid, "repo")
+            os.makedirs(copy, exist_ok=True)
+            ok, msg = _scratch_copy(repo, copy, os.path.join(d, "patch.diff"))
+            if not ok:
+                results.append({"id": sid, "error": "patch does not apply: " + msg})
+                bad += 1
+                log(f"seeded {sid}: PATCH DOES NOT APPLY")
+                continue
+            t1 = time.time()
+            cmd = [os.path.join(VERIF, "check"), prop, "--tier", "quick", "--no-evidence", "--no-detcheck", "--seed", str(args.seed)] + extra
+            rc = subprocess.run(cmd, capture_output=True, text=True, env={**os.environ, "VERIF_REPO": copy, "VERIF_REPLAY_DIR": os.path.join(base, sid, "replays")}, timeout=7200)
+            cl = dict(re.findall(r"^violation of clause (\S+) \((\d+) runs\)", rc.stdout, re.M))
+            caught = rc.returncode == 1
+            good = caught == expect_caught and rc.returncode in (0, 1)
+            if not good:
+                bad += 1
+            results.append({"id": sid, "property": prop, "exit": rc.returncode, "clauses": cl, "expected_caught": expect_caught, "as_expected": good, "wall_s": round(time.time() - t1, 1)})
+            log(f"seeded {sid} / {prop}: exit {rc.returncode} {json.dumps(cl)} {'as documented' if good else 'NOT AS DOCUMENTED'} ({time.time() - t1:.0f}s)")
+            shutil.rmtree(os.path.join(base, sid), ignore_errors=True)
+    finally:
+        shutil.rmtree(base, ignore_errors=True)
+    with open(os.path.join(VERIF, "evidence", "selftest-seeded.json"), "w") as f:
+        json.dump({"seed": args.seed, "wall_s": round(time.time() - t0, 1), "changes": len(results), "not_as_documented": bad, "results": results}, f, indent=1)
+    log(f"selftest-seeded: {len(results)} changes, {bad} not as documented, {time.time() - t0:.0f}s")
+    return 2 if bad else 0
+
+
+def refactorings(args):
+    """Every behaviour-preserving refactoring kept under seeded_refactorings/<id>/ is applied to a
+    scratch copy and all five checks are run against it: none may report a violation."""
+    repo = os.environ.get("VERIF_REPO", "/repo")
+    base = f"/dev/shm/verif-refac-{os.getpid()}"
+    only = set(args.only.split(",")) if getattr(args, "only", None) else None
+    t0 = time.time()
+    results, alarms, errors = [], 0, 0
+    try:
+        for rid in sorted(os.listdir(os.path.join(VERIF, "seeded_refactorings"))):
+            d = os.path.join(VERIF, "seeded_refactorings", rid)
+            if not os.path.exists(os.path.join(d, "patch.diff")) or (only and rid not in only):
+                continue
+            copy = os.path.join(base, rid, "repo")
+            os.makedirs(copy, exist_ok=True)
+            ok, msg = _scratch_copy(repo, copy, os.path.join(d, "patch.diff"))
+            if not ok:
+                results.append({"id": rid, "error": "patch does not apply: " + msg})
+                errors += 1
+                continue
+            codes = {}
+            for prop in PROPS:
+                rc = subprocess.run([os.path.join(VERIF, "check"), prop, "--tier", "quick", "--no-evidence", "--no-detcheck", "--seed", str(args.seed)], capture_output=True, text=True,
+                                    env={**os.environ, "VERIF_REPO": copy, "VERIF_REPLAY_DIR": os.path.join(base, rid, "replays")}, timeout=7200)
+                codes[prop] = rc.returncode
+                alarms += rc.returncode == 1
+                errors += rc.returncode not in (0, 1)
+            results.append({"id": rid, "exit_codes": codes})
+            log(f"refactoring {rid}: {codes}")
+            shutil.rmtree(os.path.join(base, rid), ignore_errors=True)
+    finally:
+        shutil.rmtree(base, ignore_errors=True)
+    with open(os.path.join(VERIF, "evidence", "selftest-refactorings.json"), "w") as f:
+        json.dump({"seed": args.seed, "wall_s": round(time.time() - t0, 1), "refactorings": len(results), "false_alarms": alarms, "harness_errors": errors, "results": results}, f, indent=1)
+    log(f"selftest-refactorings: {len(results)} refactorings x {len(PROPS)} checks, {alarms} false alarms, {errors} harness errors, {time.time() - t0:.0f}s")
+    return 2 if (alarms or errors) else 0
+
+
 def main(args):
+    if args.prop == "selftest-seeded":
+        return seeded(args)
+    if args.prop == "selftest-refactorings":
+        return refactorings(args)
     if args.prop == "selftest-poolfidelity":
         return poolfidelity(args)
     if args.prop == "selftest-determinism":
